@@ -87,6 +87,10 @@ class Report:
             fn(*args, **kw)
         except AnalysisError as ex:
             self.errors.append('%s: %s' % (fn.__name__, ex))
+        except Exception as ex:
+            import traceback
+            tb = traceback.extract_tb(ex.__traceback__)[-1]
+            self.errors.append('%s: internal error %s: %s (%s:%d)' % (fn.__name__, type(ex).__name__, ex, tb.filename.split('/')[-1], tb.lineno))
 
     def note(self, key, value):
         self.notes[key] = value
